@@ -77,9 +77,22 @@ Proof.
   eapply same_cfg_trans; [|apply cfg_sleep]. split; reflexivity.
 Qed.
 Ltac cfg_chain := eapply same_cfg_trans; [|first [apply cfg_ret | apply cfg_setk | apply cfg_yield | apply cfg_sleep]]; try (split; reflexivity).
+Lemma cfg_wait_all_op : forall progs s v c f, same_cfg s (wait_all_op progs s v c f).
+Proof.
+  intros. unfold wait_all_op.
+  assert (W : same_cfg s (wait_check progs s v c f)).
+  { unfold wait_check. destruct (wait_cond s v); [|apply cfg_ret].
+    destruct (v_sleepq _); [cfg_chain|].
+    destruct (expired _ _); [cfg_chain|]. destruct (lock_free _); [cfg_chain|apply same_cfg_refl]. }
+  destruct (Nat.eqb c v); [|destruct f; [split; reflexivity|apply cfg_ret]].
+  destruct (th_k _) as [|[|[|k]]]; auto.
+  - pose proof (cfg_sen s c) as X. destruct (set_error_number s c) as [[s1 r] e]. cbn in X.
+    eapply same_cfg_trans; [exact X|apply cfg_setk].
+  - apply cfg_setk.
+Qed.
 Lemma cfg_exec_op : forall progs s v c o, same_cfg s (exec_op progs s v c o).
 Proof.
-  intros. unfold exec_op. destruct o as [d| |j e|j jn ws|j| | |j|j u].
+  intros. unfold exec_op. destruct o as [d| |j e|j jn ws|j| | |j|j u| |]; try apply cfg_wait_all_op.
   - destruct (th_k _) as [|[|k]].
     + destruct (expired _ _); [cfg_chain|]. destruct (lock_free _); [cfg_chain|apply same_cfg_refl].
     + pose proof (cfg_sen s c) as X. destruct (set_error_number s c) as [[s1 r] e]. cbn in X.
@@ -129,9 +142,9 @@ Proof.
 Qed.
 Lemma cfg_step : forall progs s l, same_cfg s (step progs s l).
 Proof.
-  intros. unfold step. destruct (s_stuck s); [apply same_cfg_refl|].
+  intros. unfold step. destruct (s_stuck s); [apply same_cfg_refl|]. destruct (frozen _ _ _); [apply same_cfg_refl|].
   destruct l as [v|v|v|v u t|d].
-  - destruct (Nat.ltb _ _); [apply cfg_step_vcpu|apply same_cfg_refl].
+  - destruct (Nat.ltb _ _); [|apply same_cfg_refl]. destruct (pend_to_offline _ _ _); [split; reflexivity|apply cfg_step_vcpu].
   - destruct (_ && _); [apply cfg_drain_list|apply same_cfg_refl].
   - destruct (_ && _); [|apply same_cfg_refl]. unfold do_resume.
     destruct (v_sleepq _) as [|t rest]; [apply same_cfg_refl|]. destruct (Z.ltb _ _); [apply same_cfg_refl|].
@@ -471,10 +484,27 @@ Ltac lframe := first [ eapply invL_frame; [first [apply Lrel_ret | apply Lrel_se
 Lemma pend_ok_trivial_none : forall s v c, pend_ok s v (PSwitch c DNone). Proof. intros. exact Logic.I. Qed.
 Lemma pend_ok_trivial_mig : forall s v c t u, pend_ok s v (PSwitch c (DMigrate t u)). Proof. intros. exact Logic.I. Qed.
 
+Lemma invL_wait_all_op : forall progs s v c f, Inv2 s -> InvL s -> InvL (wait_all_op progs s v c f).
+Proof.
+  intros progs s v c f I2 I. unfold wait_all_op, getth.
+  assert (W : InvL (wait_check progs s v c f)).
+  { unfold wait_check, getth, getvc. destruct (wait_cond s v); [|lframe; auto].
+    destruct (v_sleepq (s_vc s v)).
+    - apply invL_yield; [lframe; auto|intro; exact Logic.I].
+    - destruct (expired _ _).
+      + apply invL_yield; [lframe; auto|intro; exact Logic.I].
+      + destruct (lock_free _); auto. apply invL_sleep; [lframe; auto|intro; exact Logic.I]. }
+  destruct (Nat.eqb c v); [|destruct f; [apply (invL_frame s); [apply Lrel_same; reflexivity|auto]|lframe; auto]].
+  destruct (th_k (s_th s c)) as [|[|[|k]]]; auto.
+  - pose proof (Lrel_sen s c) as X. destruct (set_error_number s c) as [[s1 r] e]. cbn in X.
+    lframe. eapply invL_frame; eauto.
+  - lframe; auto.
+Qed.
+
 Lemma invL_exec_op : forall progs s v c o, Inv2 s -> InvL s -> InvL (exec_op progs s v c o).
 Proof.
   intros progs s v c o I2 I. unfold exec_op, getth, getvc.
-  destruct o as [d| |j e|j jn ws|j| | |j|j u].
+  destruct o as [d| |j e|j jn ws|j| | |j|j u| |]; try now apply invL_wait_all_op.
   - destruct (th_k (s_th s c)) as [|[|k]].
     + destruct (expired _ _).
       * apply invL_yield; [lframe; auto|intro; exact Logic.I].
@@ -530,9 +560,10 @@ Qed.
 
 Lemma invL_step : forall progs s l, Inv2 s -> InvL s -> InvL (step progs s l).
 Proof.
-  intros progs s l I2 I. unfold step. destruct (s_stuck s); [exact I|].
+  intros progs s l I2 I. unfold step. destruct (s_stuck s); [exact I|]. destruct (frozen _ _ _); [exact I|].
   destruct l as [v|v|v|v u t|d].
-  - destruct (Nat.ltb _ _); [|exact I]. now apply invL_step_vcpu.
+  - destruct (Nat.ltb _ _); [|exact I].
+    destruct (pend_to_offline _ _ _); [apply (invL_frame s); [apply Lrel_same; reflexivity|exact I]|]. now apply invL_step_vcpu.
   - destruct (_ && _); [|exact I]. unfold do_drain. eapply invL_frame; [apply Lrel_drain_list|exact I].
   - destruct (_ && _); [|exact I]. eapply invL_frame; [apply Lrel_resume|exact I].
   - destruct (_ && _); [|exact I]. eapply invL_frame; [apply Lrel_steal|exact I].
